@@ -320,3 +320,24 @@ package handshake
 //@   props C13
 //@   ensures [which-error] iff(result1 == nil, h.handshakeOpener != nil) && implies(result1 != nil, result1 == ite(h.initialOpener != nil, ErrKeysNotYetAvailable, ErrKeysDropped))
 //@   modifies nothing
+
+// What is sealed into a token (C14: "a Retry token carries back exactly the connection IDs it was issued with"; tokens prove
+// an address): the ASN.1 body handed to the sealer carries the retry flag, the encoding of the address the token is
+// issued to, and — for a Retry token — exactly the bytes of the two connection IDs.
+//@ extern encoding/asn1.Marshal
+//@   modifies nothing
+//@ func (s *tokenProtector) NewToken
+//@   trusted AEAD seal of the token body under a fresh nonce (external cryptography)
+//@   modifies nothing
+//@ func (g *TokenGenerator) NewRetryToken
+//@   props C14
+//@   let body = dyn(callarg("Marshal", 0, 0), token)
+//@   ensures [a-retry-token-for-this-address-with-these-connection-ids] called("Marshal") == 1 && body.IsRetryToken && called("encodeRemoteAddr") == 1 && callarg("encodeRemoteAddr", 0, 0) == raddr && samearray(body.RemoteAddr, lastresult("encodeRemoteAddr")) && len(body.RemoteAddr) == len(lastresult("encodeRemoteAddr")) && len(body.OriginalDestConnectionID) == int(origDestConnID.l) && len(body.RetrySrcConnectionID) == int(retrySrcConnID.l)
+//@   ensures [connection-id-bytes-carried-exactly] forall(k, 0, int(origDestConnID.l), body.OriginalDestConnectionID[k] == origDestConnID.b[k]) && forall(k, 0, int(retrySrcConnID.l), body.RetrySrcConnectionID[k] == retrySrcConnID.b[k])
+//@   ensures [sealed-body-is-the-marshalled-one] implies(lastresult("Marshal", 1) == nil, called("(*tokenProtector).NewToken") == 1 && alias(callarg("(*tokenProtector).NewToken", 0, 1), lastresult("Marshal", 0), 0) && len(callarg("(*tokenProtector).NewToken", 0, 1)) == len(lastresult("Marshal", 0)))
+//@   modifies nothing
+//@ func (g *TokenGenerator) NewToken
+//@   props C14
+//@   let body = dyn(callarg("Marshal", 0, 0), token)
+//@   ensures [an-address-token-without-connection-ids] called("Marshal") == 1 && !body.IsRetryToken && called("encodeRemoteAddr") == 1 && callarg("encodeRemoteAddr", 0, 0) == raddr && samearray(body.RemoteAddr, lastresult("encodeRemoteAddr")) && len(body.RemoteAddr) == len(lastresult("encodeRemoteAddr")) && len(body.OriginalDestConnectionID) == 0 && len(body.RetrySrcConnectionID) == 0
+//@   modifies nothing
